@@ -1,7 +1,7 @@
 (* C20 entry points of the extracted model (nodes are natural numbers). *)
 From Coq Require Extraction ExtrOcamlBasic ExtrOcamlString.
 From Coq Require Import List Arith.
-Require Import TT.Model.Base TT.Model.Topo TT.Model.Kahn TT.Spec.P20.
+Require Import TT.Model.Base TT.Model.Topo TT.Model.Kahn TT.Model.C20Resolver TT.Spec.P20 TT.Spec.P20Hist.
 
 Definition c20_topo (g : Topo.graph nat) (req : list nat) : option (list nat) :=
   topo_sort (S (length (universe g req))) g req.
@@ -10,7 +10,21 @@ Definition c20_kahn (order : list nat) (deps : list (nat * nat)) : Kahn.kres nat
 Definition c20_kahn_ok (ns : list nat) (deps : list (nat * nat)) (res : option (list nat)) : bool :=
   kahn_ok_b ns deps res.
 
+(* histories: the resolver model enumerates the node set in insertion order (any enumeration gives
+   the same Ok/Err, C20_kahn_ok_iff); the graph model traverses sets in ascending numeric order,
+   which is the sorted name order of the implementation for the two-digit node names used *)
+Fixpoint insert_sorted (x : nat) (l : list nat) : list nat :=
+  match l with
+  | nil => cons x nil
+  | cons y l' => if Nat.leb x y then cons x l else cons y (insert_sorted x l')
+  end.
+Definition sort_nat (l : list nat) : list nat := fold_right insert_sorted nil l.
+Definition c20_hist (ops : list (rop nat)) : list (Kahn.kres nat) := rrun (fun l => l) rinit ops.
+Definition c20_hist_ok (ops : list (rop nat)) (outs : list (option (list nat))) : bool := hist_ok_b rinit ops outs.
+Definition c20_ghist (ops : list (gop nat)) : list (option (list nat)) := grun sort_nat nil ops.
+Definition c20_ghist_ok (ops : list (gop nat)) (outs : list (list nat)) : bool := ghist_ok_b nil ops outs.
+
 (* Extraction of this property's entry points: only the directives of
    ExtrOcamlBasic and ExtrOcamlString are in force. Written to coq/tt_c20.ml. *)
 Extraction Language OCaml.
-Extraction "tt_c20.ml" c20_topo c20_topo_ok c20_kahn c20_kahn_ok.
+Extraction "tt_c20.ml" c20_topo c20_topo_ok c20_kahn c20_kahn_ok c20_hist c20_hist_ok c20_ghist c20_ghist_ok.
